@@ -785,3 +785,25 @@ Proof.
   replace (s_off x =? s_off e) with false by (symmetry; apply N.eqb_neq; lia).
   apply (IH _ Hr Hin).
 Qed.
+
+(* ================================================================== *)
+(* textual public id in the string table: 00 index, and the index is the offset of an entry holding the id *)
+Lemma fill_header_textual_strtbl e st p :
+  bl_pub_num (e_lang e) = 1 -> e_anonymous e = false -> bl_pub_text (e_lang e) = Some p -> e_use_strtbl e = true ->
+  exists idx tbl tlen,
+    strtbl_add (strtbl st) (strtbl_len st) p None = (idx, tbl, tlen) /\
+    fill_header e st = [u8 (e_version e)] ++ ([0] ++ mb_write idx) ++ mb_write 106 ++ mb_write tlen ++ strtbl_construct tbl /\
+    (tinv st -> tbl_size tbl < 4294967296 ->
+       (offsets_from 0 tbl /\ tlen = len (strtbl_construct tbl)) /\ exists x, In x tbl /\ s_off x = idx /\ s_str x = p).
+Proof.
+  intros Hn Ha Hp Hu. unfold fill_header. rewrite Hn, Ha, Hp, Hu.
+  change ((1 =? 1) && negb false) with true. cbv iota.
+  destruct (strtbl_add (strtbl st) (strtbl_len st) p None) as [[idx tbl] tlen] eqn:A.
+  exists idx, tbl, tlen. split; [reflexivity|]. split; [reflexivity|].
+  intros [Ho Hl] Hb. pose proof A as A'. apply strtbl_add_any in A'. destruct A' as (_ & HI).
+  destruct (HI (conj Ho Hl) Hb) as [Ho' Hl']. split; [split; [exact Ho'|now rewrite strtbl_construct_len]|].
+  unfold strtbl_add in A. destruct (find _ (strtbl st)) as [e0|] eqn:F; injection A as <- <- <-.
+  - apply find_some in F. destruct F as [Hin Heq]. apply andb_true_iff in Heq. destruct Heq as [_ Heq].
+    apply beq_eq in Heq. exists e0. auto.
+  - exists (mk_ste p (strtbl_len st) None). split; [apply in_or_app; right; now left|now cbn].
+Qed.
